@@ -32,11 +32,6 @@ theorem asm_seq_add_mod (s n : Int) :
 
 /-! ## 2. The `panic("wtf")` guard of insertIntoConn is unreachable -/
 
-/-- a segment as AssembleWithTimestamp can receive it: `t.Seq` is a uint32 -/
-def WfOp : Op → Prop
-  | .seg s => 0 ≤ s.seq ∧ s.seq < 4294967296
-  | _ => True
-
 /-- For EVERY history of Assemble / Flush* / FlushAll / option changes (any segments whatsoever, any
     number of connections) the model of the real code never reaches `panic("wtf")` (nor any other
     panic): every history runs to completion. -/
